@@ -29,6 +29,8 @@ RULE = ("cases = calls of ~100 public operations across all modules (field arith
 ASSUMPTIONS = ["value digests read raw attributes (n, coeffs, modulus_coeffs) and tuple/list/bytes contents; the memoised sgn0 is not part of an element's value"]
 SHARD_ENV = lambda shard: {"PYTHONHASHSEED": str([0, 1, 2, 12345, 987654321][shard % 5])}   # noqa: E731
 
+REPLAY_BY_SHARD = True
+
 
 def shards(tier):
     return 16
